@@ -14,8 +14,14 @@ from dask.dataframe.utils import (
 from dask.utils import M
 
 from dask_expr._accessor import Accessor, PropertyMap
-from dask_expr._expr import Blockwise, Elemwise, Projection
+from dask_expr._expr import (
+    Blockwise,
+    Elemwise,
+    Projection,
+    determine_column_projection,
+)
 from dask_expr._reductions import ApplyConcatApply
+from dask_expr._util import _labels_to_list
 
 
 class CategoricalAccessor(Accessor):
@@ -166,7 +172,6 @@ class AsUnknown(Elemwise):
 class Categorize(Blockwise):
     _parameters = ["frame", "categories", "index"]
     operation = staticmethod(_categorize_block)
-    _projection_passthrough = True
 
     @functools.cached_property
     def _meta(self):
@@ -174,6 +179,23 @@ class Categorize(Blockwise):
             self.frame._meta, self.operand("categories"), self.operand("index")
         )
         return meta
+
+    def _simplify_up(self, parent, dependents):
+        if isinstance(parent, Projection):
+            columns = _labels_to_list(
+                determine_column_projection(self, parent, dependents)
+            )
+            columns = [col for col in self.frame.columns if col in columns]
+            if columns == self.frame.columns:
+                return
+            # The block function converts every column named in ``categories``
+            categories = {
+                col: cats
+                for col, cats in self.operand("categories").items()
+                if col in columns
+            }
+            result = Categorize(self.frame[columns], categories, self.operand("index"))
+            return type(parent)(result, parent.operand("columns"))
 
 
 class GetCategories(ApplyConcatApply):
